@@ -449,10 +449,32 @@ SIGNATURES = [
 ]
 
 
+UND_TEXT = [sig[3] for sig in SIGNATURES if "inactive Undulator" in sig[3]][0]
+
+
+def entry_status(text):
+    """status of the known_findings.json entry of C08 with exactly this text ('known' / 'fixed' / None = not listed)"""
+    st = [f.get("status") for f in common.load_known_findings(PID) if f.get("what") == text]
+    if "known" in st:
+        return "known"
+    return st[0] if st else None
+
+
+def signature_active(text):
+    """A signature suppresses a failure only while its own entry is listed `known`.  Checked per entry for the Undulator
+    signature: its tag is [F10/F3] and Run.known() gates on the first id (F10), which stays `known` through the other F10
+    entries after finding F3 (Undulator R56) has been repaired -- an inactive Undulator IS a drift then, and a tracking
+    difference after inactive_elements_as_drifts is a regression, not a known finding."""
+    if text == UND_TEXT:
+        return entry_status(text) == "known"
+    return True
+
+
 def classify_real(lat, beam, ex, fails):
     """Split failures into (known: list of texts, new: list of failures).  A tracking failure of the zero-length /
     as-drifts filters is known iff it disappears when exactly the top-level elements matching a listed signature are
-    excepted (and at least one such element is present); everything else is new."""
+    excepted (and at least one such element is present); everything else is new.  A failure whose responsible signature
+    belongs to an entry listed as fixed is new (tagged regression_of)."""
     known, new = [], []
     for f in fails:
         op = f["op"]
@@ -469,7 +491,12 @@ def classify_real(lat, beam, ex, fails):
                         if st3 != "ok" or any(x["what"].startswith("tracking result differs") for x in f3):
                             resp.append(nm)
                     resp = resp or names
-                    known += sorted({sig[3] for s, sig in hits if s["name"] in resp})
+                    texts = sorted({sig[3] for s, sig in hits if s["name"] in resp})
+                    stale = [t for t in texts if not signature_active(t)]
+                    if stale:
+                        new.append(dict(f, regression_of=stale, responsible=resp))
+                    else:
+                        known += texts
                     continue
         new.append(f)
     return known, new
@@ -515,10 +542,35 @@ def real_oracle(run, n):
 
 
 def replay_known(run):
+    """known + still failing -> KNOWN-FINDING; known + passing -> note; fixed + failing again -> VIOLATION with the stored input.
+    Returns the texts of the fixed entries that regressed."""
+    regressed = []
     for f in common.load_known_findings(PID):
+        r = f.get("replay")
+        if f.get("status") == "fixed" and r and "lattice" in r:
+            run.cov.setdefault("fixed_findings_replayed", []).append(f["id"] + ":" + f["what"][:60])
+            try:
+                if r.get("expect") == "length_raises":
+                    try:
+                        apply_op(realgen.build(r["lattice"]), r["op"], realgen.build_beam(r["beam"]), r.get("except_for", [])).length
+                        fails = []
+                    except TypeError as ex:
+                        fails = [{"op": r["op"], "what": f"length raises TypeError: {ex}"}]
+                else:
+                    st, fails = real_check(r["lattice"], r["beam"], r.get("except_for", []), ops=(r["op"],))
+                    if st != "ok":
+                        run.notes.append(f"stored input of fixed finding {f['id']} could not be replayed: {st}")
+                    fails = [x for x in fails if x["what"].startswith("tracking result differs")] if st == "ok" else []
+            except Exception as ex:
+                fails = [{"op": r.get("op"), "what": f"exception {type(ex).__name__}: {ex}"}]
+            if fails:
+                regressed.append(f["what"])
+                run.violation({"kind": "real_lattice", "regression_of": f["id"], "what": "fixed finding fails again on its stored input: " + f["what"],
+                               "lattice": r["lattice"], "beam": r["beam"], "except_for": r.get("except_for", []), "op": r["op"], "failures": fails,
+                               "relation": "transformed segment tracks like the original (rtol 1e-9), same length, excepted elements kept"})
+            continue
         if f.get("status") != "known":
             continue
-        r = f["replay"]
         if r.get("expect") == "length_raises":
             try:
                 new = apply_op(realgen.build(r["lattice"]), r["op"], realgen.build_beam(r["beam"]), r.get("except_for", []))
@@ -532,6 +584,7 @@ def replay_known(run):
             run.known(f["what"])
         else:
             run.cov["known_findings_not_reproduced"].append(f["id"] + ":" + f["what"][:60])
+    return regressed
 
 
 # ---------------------------------------------------------------- main
@@ -554,8 +607,12 @@ def main(tier, replay=None):
 
     table, table_fail = class_table(run)
     cases, failing, impl_fail = structural(run, 1500 if thorough else 250, 5 if thorough else 3)
+    run.cov["undulator_as_drift"] = ("known finding [F10/F3]: an inactive Undulator is not a drift (R56)" if signature_active(UND_TEXT)
+                                     else "an inactive Undulator must track like the Drift that replaces it (finding F3 repaired)")
     new_real = real_oracle(run, 1500 if thorough else 150)
-    replay_known(run)
+    regressed = replay_known(run)
+    # failures already reported through the stored input of a fixed entry are not reported a second time
+    new_real = [it for it in new_real if not (it["failure"].get("regression_of") and set(it["failure"]["regression_of"]) <= set(regressed))]
     run.cov["tested_only"] = ["tracking before/after each transformation on real lattices (float64, rtol 1e-9)",
                               "identity of excepted objects and getattr(segment, name) addressability (Python object identity is outside the model)",
                               "vectorised settings (not generated by this check)"]
